@@ -124,3 +124,54 @@ func GenCase(t *rapid.T, p Profile) Case {
 	}
 	return c
 }
+
+// AddWideBlock turns one early violation-free block of the history into a block that spends outputs of 31..34 or
+// 64..67 DIFFERENT confirmed transactions in single-input transactions (the unspent-set commit splits its work into
+// batches of 32 records), followed by blocks that try to spend them again.  The prefix is lengthened so that enough
+// mature coinbases exist.  Reports whether the history had a suitable block.
+func AddWideBlock(t *rapid.T, c *Case) bool {
+	var cand []int
+	for i, op := range c.Ops {
+		if op.Kind == "block" && op.Viol == "" && !op.Hold {
+			cand = append(cand, i)
+		}
+	}
+	if len(cand) == 0 {
+		return false
+	}
+	// early in the history: the spendable set is then mostly the prefix's one-output coinbases, every input a
+	// different confirmed transaction
+	hi := len(cand) - 1
+	if hi > 2 {
+		hi = 2
+	}
+	i := cand[rapid.IntRange(0, hi).Draw(t, "wideop")]
+	n := rapid.SampledFrom([]int{31, 32, 33, 34, 64, 65, 66, 67}).Draw(t, "widen")
+	op := &c.Ops[i]
+	op.Txs = nil
+	for j := 0; j < n; j++ {
+		// selector 0: always the first of the (sorted) confirmed candidates, never an output created in this block
+		op.Txs = append(op.Txs, TxSpec{Ins: []int{0},
+			Outs: []OutSpec{{Fam: rapid.IntRange(0, 12).Draw(t, "widefam"), Share: 1, N: j}}, Fee: 1})
+	}
+	// enough mature coinbases: the chain tip stays at the same absolute height
+	if need := 100 + n + 8 + 20*i; c.Params.Prefix < need {
+		d := uint32(need - c.Params.Prefix)
+		if c.Params.Base >= d {
+			c.Params.Base -= d
+		}
+		c.Params.Prefix = need
+		// a synthetic chain (no blocks below Base) cannot serve a retarget: keep every multiple of 2016 out of it
+		if lo, hi := c.Params.Base, c.Params.Base+uint32(need+len(c.Ops)+2); lo != 0 && lo/2016 != hi/2016 {
+			c.Params.Base = 0
+		}
+	}
+	// blocks that try to spend outputs consumed by an earlier block
+	for k := i + 1; k < len(c.Ops) && k < i+6; k++ {
+		if c.Ops[k].Kind == "block" && c.Ops[k].Viol == "" && rapid.Bool().Draw(t, "respend") {
+			c.Ops[k].Viol = "spent_earlier"
+			c.Ops[k].Arg = rapid.IntRange(0, 1<<12).Draw(t, "respendarg")
+		}
+	}
+	return true
+}
